@@ -1,0 +1,26 @@
+"""
+Optional tracing hooks used by external verification tooling.
+
+Nothing happens unless the environment variable TORCHTT_VERIF=1 is set *and* a sink has been installed
+with `install(sink)`; `emit` is then called at a few linearisation points of the truncation routines with
+cheap scalars only (never tensors).
+"""
+import os
+
+_ON = os.environ.get("TORCHTT_VERIF") == "1"
+_sink = None
+
+
+def install(sink):
+    """Install (or remove with None) the callable receiving (event_name, dict_of_scalars)."""
+    global _sink
+    _sink = sink
+
+
+def enabled():
+    return _ON and _sink is not None
+
+
+def emit(event, **fields):
+    if _ON and _sink is not None:
+        _sink(event, fields)
